@@ -886,6 +886,23 @@ func ruleWriteErrGuard(c *Ctx) {
 		}
 		n++
 		guards := g.GuardsAt(g.VertexOf(s.Call))
+		// ... together with what guards the assignment inside the locked closure; a boolean local of the function that
+		// is defined once stands for its definition (`broken := ctx.Err() == nil && !errors.Is(err, ErrRejected)`)
+		lg := s.Lit.Graph()
+		for _, fw := range s.Lit.FieldWrites(s.Lit.Body, writeErr, false) {
+			guards = append(guards, lg.GuardsAt(lg.VertexOf(fw))...)
+		}
+		for i := 0; i < len(guards); i++ {
+			a := guards[i]
+			if _, isID := ast.Unparen(a.E).(*ast.Ident); !isID {
+				continue
+			}
+			if def := wr.valueOf(a.E); def != a.E {
+				if b, isB := wr.TypeOf(a.E).Underlying().(*types.Basic); isB && b.Info()&types.IsBoolean != 0 {
+					splitAtoms(def, a.Val, &guards)
+				}
+			}
+		}
 		ctxAlive := hasAtom(guards, func(a Atom) bool {
 			return AtomSaysNil(a, true, func(e ast.Expr) bool {
 				ce, ok := ast.Unparen(e).(*ast.CallExpr)
